@@ -1,6 +1,7 @@
 //! Correspondence harness: runs the real rustyline code on generated requests and prints
 //! `request<TAB>observation` lines (preceded by the `charinfo` lines the request needs).
 mod common;
+mod completion;
 mod direct;
 mod ed;
 mod hist;
@@ -25,6 +26,7 @@ fn exec_line(req: &str) -> String {
         Some(t) if t.starts_with("ed") => ed::exec(&f[1..]),
         Some("keys") => keys::exec(&f[1..]),
         Some(t @ ("direct" | "seg")) => direct::exec(t, &f[1..]),
+        Some(t @ ("comp" | "clcp" | "cfs")) => completion::exec(t, &f[1..]),
         _ => None,
     }));
     match r {
@@ -95,6 +97,9 @@ fn main() {
                 "keys" => keys::gen(&ctx, &mut sink),
                 "direct" => direct::gen_direct(&ctx, &mut sink),
                 "seg" => direct::gen_seg(&ctx, &mut sink),
+                "comp" => completion::gen_pure(&ctx, &mut sink),
+                "clcp" => completion::gen_lcp(&ctx, &mut sink),
+                "cfs" => completion::gen_fs(&ctx, &mut sink),
                 _ => {
                     eprintln!("unknown target");
                     std::process::exit(2)
@@ -122,5 +127,6 @@ fn main() {
             std::process::exit(2);
         }
     }
+    completion::cleanup();
     out.flush().unwrap();
 }
